@@ -183,6 +183,7 @@ fn library_server(c: &Case, kind: c09::Kind, fail_after: Option<usize>) -> Socke
     let server = Server::new(c09::router_for(&case9));
     let l = server.listen(crate::util::lo0().as_str()).unwrap();
     let addr = l.local_addr().unwrap();
+    crate::peers::net::stop_at_end_of_case(&l);
     std::thread::spawn(move || {
         let _ = server.serve(l);
     });
@@ -527,6 +528,7 @@ pub fn child(sub: &str) -> i32 {
     let server = Server::new(c09::router_for(&case9));
     let l = server.listen(crate::util::lo0().as_str()).unwrap();
     let addr = l.local_addr().unwrap();
+    crate::peers::net::stop_at_end_of_case(&l);
     std::thread::spawn(move || {
         let _ = server.serve(l);
     });
